@@ -32,8 +32,9 @@ func CheckRootSchema(rootSchema *schema.Schema) {
 		c.checkNode(rootSchema.RootNode(), rootSchema.TypesList())
 	}
 
-	for name, typ := range rootSchema.TypesList() {
-		c.checkType(name, typ, rootSchema.TypesList())
+	// In a fixed order: the first problem found is the one that is reported.
+	for _, name := range rootSchema.TypeNames() {
+		c.checkType(name, rootSchema.TypesList()[name], rootSchema.TypesList())
 	}
 }
 
